@@ -191,7 +191,9 @@ namespace GeographicLib {
                                       real& BX, real& BY, real& BZ,
                                       real& BXt, real& BYt, real& BZt) const {
     t -= _t0;
-    int n = max(min(int(floor(t / _dt0)), _nNmodels - 1), 0);
+    // clamp in floating point: int(x) is undefined for |x| >= 2^31, inf and NaN
+    real k = floor(t / _dt0);
+    int n = k >= _nNmodels - 1 ? _nNmodels - 1 : (k > 0 ? int(k) : 0);
     bool interpolate = n + 1 < _nNmodels;
     t -= n * _dt0;
     // Components in geocentric basis
@@ -237,7 +239,8 @@ namespace GeographicLib {
 
   MagneticCircle MagneticModel::Circle(real t, real lat, real h) const {
     real t1 = t - _t0;
-    int n = max(min(int(floor(t1 / _dt0)), _nNmodels - 1), 0);
+    real k = floor(t1 / _dt0);
+    int n = k >= _nNmodels - 1 ? _nNmodels - 1 : (k > 0 ? int(k) : 0);
     bool interpolate = n + 1 < _nNmodels;
     t1 -= n * _dt0;
     real X, Y, Z, M[Geocentric::dim2_];
